@@ -147,3 +147,35 @@ CHECKS['C20'] = (
     TB + '; multiprocessing of worker_default replaced by harness-stepped fakes (a child = when its target runs + what '
     'join/is_alive/terminate report); scheduler placement stubbed (C01-C04); MPI workers and TASK_METH not reached',
     'DESIGN.md 4/C20')
+CHECKS['C08'] = (
+    'property-based testing (Hypothesis, seeded): cancel-heavy histories through the scheduler-pair and executor engines, '
+    'DIFFERENTIAL run of each executor schedule with and without its cancel requests, generic-intake and request-message parts',
+    'random search over the point of a task\'s life at which a cancel arrives (in the scheduler queue, waiting, placed, in the '
+    'executor queue, before spawn, running, after exit) x bystander sets: named tasks leave the wait pool / are killed / are '
+    'released exactly once / end CANCELED unless finished, and are not processed by a later component; bystanders keep their '
+    'outcome (equal with/without the request), are never canceled, dropped or released; no counterexample in the explored domain; not a proof',
+    SCHED_TB + '; ' + EXEC_TB + '; the whole client->agent pipeline is not assembled: decided per half-pipeline, the request path '
+    'between TaskManager.cancel_tasks and the pilot components is C16\'s forwarding', 'DESIGN.md 4/C08')
+CHECKS['C11'] = (
+    'property-based testing (Hypothesis, seeded): generated staging-directive bulks driven through the four real '
+    'staging components on a fresh directory tree, file-tree oracle against the documented sandbox hierarchy; '
+    'short-form strings through expand_staging_directives against a split model',
+    'random search over actions x forms (dict, "src", > >> < <<) x location schemas x files/directories x missing '
+    'sources x task outcome x stage_on_error, 1-3 tasks per bulk; no counterexample in the explored domain, '
+    'coverage measured; not a proof',
+    TB + '; hops between components (tmgr scheduler advance, Agent_0 proxy, scheduler+executor) are harness stand-ins; '
+    'Local staging backend on one file system; DOWNLOAD, remote schemas, SAGA backend, Pilot.stage_in/out, output '
+    'TARBALL, client:// on agent-side actions not reached', 'DESIGN.md 4/C11')
+CHECKS['C18'] = (
+    'property-based testing (Hypothesis, seeded) of generated batch-system allocations against a reference '
+    'model of the offered node list; atheris target over node-file line order / exec_vnode chunking (thorough)',
+    'random search over node files / host-list expressions / exec_vnode texts x resource config (SMT, blocked '
+    'cores/gpus, configured or detected sizes) x request (nodes, backup nodes, ssh probe outcomes) x agent layout '
+    'through the real Fork, Debug, Slurm, Torque, CCM, LSF, Cobalt and PBSPro resource managers, from scratch and '
+    'from the registry; no counterexample in the explored domain beyond the listed findings, coverage measured; '
+    'not a proof',
+    'trusted base: _prepare_launch_methods stubbed, in-memory registry with msgpack copies, ssh probe / qstat / '
+    'cpu_count answered from the case, os.environ+cwd+$HOME per case, RMInfo class defaults reset per case, agent '
+    'config shaped as pmgr launching writes it (cores_per_node x SMT), reference Slurm host-list expansion, '
+    'get_version shim; Yarn RM not reached; backup_list content not demanded',
+    'DESIGN.md 4/C18')
